@@ -406,7 +406,7 @@ static int d_line_check(const char *dm, const struct h_line *got, const struct h
 static int d_compare(const char *dm, const struct x_model *m)
 {
         char key[160], where[60];
-        if (D.over) h_die("demux delivered more than 16 frames");
+        if (D.over) { snprintf(key, sizeof key, "roundtrip %s: number of delivered frames differs from the recognisable frames sent", dm); h_viol(key, "more than 16 frames delivered"); return -1; }
         if (m->any0) {
                 int nd = 0; for (int i = 0; i < D.n; i++) nd += D.f[i].n;
                 int ne = m->last_start;
@@ -463,8 +463,8 @@ static vbi_dvb_mux *mux_new(const struct h_cfg *c)
 {
         vbi_dvb_mux *mx = c->ts ? vbi_dvb_ts_mux_new(c->pid, m_cb, NULL) : vbi_dvb_pes_mux_new(m_cb, NULL);
         if (!mx) h_die("mux_new");
-        if (!vbi_dvb_mux_set_data_identifier(mx, c->did)) h_die("set_data_identifier(%02x) refused", c->did);
-        if (!vbi_dvb_mux_set_pes_packet_size(mx, c->minsz, c->maxsz)) h_die("set_pes_packet_size refused");
+        if (!vbi_dvb_mux_set_data_identifier(mx, c->did)) h_viol("configuration not taken over (documented value refused)", "set_data_identifier(%02x) refused", c->did);
+        if (!vbi_dvb_mux_set_pes_packet_size(mx, c->minsz, c->maxsz)) h_viol("configuration not taken over (documented value refused)", "set_pes_packet_size(%u, %u) refused", c->minsz, c->maxsz);
         if (vbi_dvb_mux_get_min_pes_packet_size(mx) != c->minsz || vbi_dvb_mux_get_max_pes_packet_size(mx) != c->maxsz
             || vbi_dvb_mux_get_data_identifier(mx) != c->did)
                 h_viol("configuration not taken over (getters return other values than were set)", "min=%u max=%u did=%02x", vbi_dvb_mux_get_min_pes_packet_size(mx), vbi_dvb_mux_get_max_pes_packet_size(mx), vbi_dvb_mux_get_data_identifier(mx));
@@ -650,7 +650,7 @@ static int run_finish(struct run *r)
                 f_reset(&s, 0x0ABCDE000ll + k); f_add(&s, VBI_SLICED_TELETEXT_B, 7, 90 + k);
                 int a = run_frame(r, &s, IF_FEED, NULL, NULL, k ? "second flushing frame {ttx@7}" : "first flushing frame {ttx@7}");
                 if (a < 0) return -1;
-                if (a == 0) { h_die("flushing frame rejected without a report"); }
+                if (a == 0) { h_viol("legal frame rejected", "flushing frame {ttx@7} rejected"); return -1; }
         }
         /* PES demultiplexer on the PES layer */
         {
